@@ -14,8 +14,8 @@ from ..rtc import deep, static_scan as S
 DEPTHS = {"quick": [10**3, 10**4], "thorough": [10**3, 10**4, 2 * 10**4, 5 * 10**4]}
 # (family, n, timing): graphs that do not need a deep interpreter stack come first so that cost/once-only is also evaluated
 # where the library is able to finish.  ladder: every interior node has two consumers; wide: n ops in branches of depth 200.
-SHALLOW = {"quick": [("chain", 400, True), ("ladder", 400, True), ("fanin", 1000, True), ("wide", 10**4, True)],
-           "thorough": [("chain", 400, True), ("ladder", 400, True), ("fanin", 1000, True), ("wide", 10**4, True), ("wide", 5 * 10**4, True)]}
+SHALLOW = {"quick": [("chain", 400, True), ("ladder", 400, True), ("fanin", 1000, True), ("wide", 10**4, True), ("stack", 6000, True)],
+           "thorough": [("chain", 400, True), ("ladder", 400, True), ("fanin", 1000, True), ("wide", 10**4, True), ("wide", 5 * 10**4, True), ("stack", 6000, True), ("stack", 15000, True)]}
 LOOPS = [10**3, 10**4]
 RATIO_MAX, REL_TOL, LAST_FEW, LIVE_MAX = 3.5, 1e-6, 3, 16
 
@@ -31,7 +31,7 @@ def static_part(run):
         run.violation("Tensor.backward.no_graph_depth_recursion",
                       "%s calls itself (via %s, line %s) inside a loop over node._children: interpreter stack use grows with graph depth"
                       % (c["where"], ", ".join(c["via"]), c["lines"]),
-                      key={"where": c["where"], "clause": c["clause"], "along_children": True}, replay={"static": c})
+                      key={"where": c["where"], "clause": c["clause"], "along_children": True}, replay={"static": c, "verifier_output": c}, reproduced=False)
     ini = S.init_children()
     run.extra["static_init_children"] = ini
     run.add_counts(obligations=1, discharged=1 if ini["ok"] else 0, backend="static-ast")
@@ -39,7 +39,7 @@ def static_part(run):
         run.violation("Tensor.__init__.untracked_keeps_no_children",
                       "on a path where the tensor does not require grad (%s false) __init__ ends with self._children = the `children` argument, not (): %s"
                       % ("/".join(ini["assumed_false"]), ini["trace"][0]),
-                      key={"where": ini["where"], "clause": "children_retained_when_not_requiring_grad"}, replay={"static": ini})
+                      key={"where": ini["where"], "clause": "children_retained_when_not_requiring_grad"}, replay={"static": ini, "verifier_output": ini}, reproduced=False)
     checked = {}
     for rel in ("functional.py", "nn/functional.py"):
         w = S.wrapper_guards(rel)
@@ -48,7 +48,7 @@ def static_part(run):
         badfns = {b["where"] for b in w["bad"]}
         run.add_counts(obligations=len(w["checked"]), discharged=len(w["checked"]) - len(badfns), backend="static-ast")
         for b in w["bad"]:
-            run.violation("wrapper.grad_fn_only_when_requires_grad", "%s: %s" % (b["where"], b["clause"]), key=b, replay={"static": b})
+            run.violation("wrapper.grad_fn_only_when_requires_grad", "%s: %s" % (b["where"], b["clause"]), key=b, replay={"static": b, "verifier_output": b}, reproduced=False)
         if len(w["checked"]) < 20:
             run.error("static: only %d op wrappers recognised in %s (pattern matcher out of date?)" % (len(w["checked"]), rel))
     run.extra["static_wrappers_checked"] = checked
@@ -125,7 +125,7 @@ def runtime_part(run, tier):
             run.violation("backward.each_op_exactly_once" if once else ("backward.completes_on_any_graph" if "raised" in bd["what"] else "backward.leaf_gradient"),
                           "random DAG seed %d (%d ops, shared intermediates): %s [%d of %d DAGs fail]" % (bd["seed"], bd["ops"], bd["what"], r["n_bad"], ndag),
                           key={"family": "dag", "seed": bd["seed"], "clause": "dag"}, replay={"cmd": j["cmd"].replace(json_of(spec), json_of({**spec, "first_seed": bd["seed"], "count": 1})), "case": bd})
-    for mode in ("plain", "no_grad", "no_grad_reused"):
+    for mode in ("plain", "no_grad", "no_grad_reused", "plain_varying", "no_grad_varying"):
         spec = {"kind": "untracked", "mode": mode, "loops": LOOPS}
         j = deep.run_job(spec, timeout=300)
         if j["status"] != "ok":
@@ -146,8 +146,8 @@ def runtime_part(run, tier):
         if alive or grows:
             clause = "operands_alive_after_loop" if alive else "live_tensor_count_grows"
             run.violation("untracked.operands_released",
-                          "%s updates w = w - 0.1*g (%s): after the loop and gc.collect() %s of %s operand tensors are still alive; live Tensor objects added: %s"
-                          % (big["loop"], "operands do not require grad" if mode == "plain" else "operands require grad, inside no_grad()",
+                          "%s updates w = w - c*g (%s): after the loop and gc.collect() %s of %s operand tensors are still alive; live Tensor objects added: %s"
+                          % (big["loop"], ("operands do not require grad" if mode.startswith("plain") else "operands require grad, inside no_grad()") + (", a new Python-number coefficient at every step" if mode.endswith("varying") else ""),
                              big["operands_alive"], big["loop"], {u["loop"]: u["live_tensors_added"] for u in runs}),
                           key={"mode": mode, "clause": clause, "loop": big["loop"]}, replay={"cmd": j["cmd"], "spec": spec, "result": j["result"]})
         run.sample({"untracked": mode, "runs": runs})
@@ -166,7 +166,7 @@ def main(tier="quick", seed=0, procs=None, only=None):
                "functions; the op closures invoked through grad_fn() are not followed statically (they are executed by the run-time part)")
     run.bounds = {"static": "whole of tensor.py / functional.py / nn/functional.py, all paths of Tensor.__init__",
                   "chains": "sequential ops n in %s (and 2n for timing); mul/add/neg/reshape on a float64 leaf of 3 elements" % DEPTHS[tier],
-                  "shallow graphs": "chain/ladder 400 (+800), fan-in of 1000 (+2000) products of one leaf summed by a balanced add tree, "
+                  "shallow graphs": "chain/ladder 400 (+800), fan-in of 1000 (+2000) products of one leaf summed by a balanced add tree, one stack of 6000 (+12000) operands, "
                                     "wide graphs of %s ops in branches of depth 200" % [n for f, n, _ in SHALLOW[tier] if f == "wide"],
                   "untracked loops": "w = w - 0.1*g, lengths %s, (a) operands not requiring grad, (b) operands requiring grad inside no_grad(), (c) the same inside an open no_grad block "
                                      "that also enters a stored, re-used no_grad object" % LOOPS,
